@@ -186,6 +186,27 @@ theorem cuthill_is_permutation (N : Nat) (es : List (Nat × Nat)) (hN : 2 ≤ N)
       (∀ (i j : Nat), i < N → j < N → r.newnum[i]?.getD 0 = r.newnum[j]?.getD 0 → i = j) :=
   cuthill_perm N es hN hes
 
+/-- `SortNodes` (the in-place move of the nodes along the cycles of `newnum`, one copy per solver): when the loop ends, the array is a
+    rearrangement of the (number, node) pairs in which every pair sits at the position of its number -/
+theorem sortNodes_places_every_node {β : Type} (a a' : Array (Nat × β)) (hd : Distinct a) (h : sortNodesLoop a = some a') :
+    a'.Perm a ∧ ∀ (u : Nat × β), u ∈ a → a'[u.1]? = some u := sortNodesLoop_places a a' hd h
+
+/-- … and it ends (every `while` loop within `N + 1` passes, no index outside the arrays) whenever the numbers are pairwise distinct and
+    below the number of nodes; with a repeated number the C++ loop would never end (`sortNodes #[2,0,1,1] …` has no result) -/
+theorem sortNodes_ends {β : Type} (a : Array (Nat × β)) (hd : Distinct a) (hr : InRange a) : ∃ a', sortNodesLoop a = some a' :=
+  sortNodesLoop_total a hd hr
+
+/-- The whole chain, for EVERY mesh graph over at least two nodes and every node type: `Cuthill()` returns a numbering, `SortNodes` ends,
+    and node `i` of the mesh is found at position `newnum[i]` of the reordered list - the statement the comparison of the mesh files with
+    the solution file observes on every solved problem. -/
+theorem renumbering_moves_every_node_to_its_number {β : Type} (N : Nat) (es : List (Nat × Nat)) (nodes : Array β) (hN : 2 ≤ N)
+    (hes : ∀ e ∈ es, e.1 < N ∧ e.2 < N) (hnd : nodes.size = N) :
+    ∃ r out, cuthill N es = some r ∧ sortNodes r.newnum nodes = some out ∧ out.size = N ∧
+      ∀ (i : Nat), i < N → out[r.newnum[i]?.getD 0]? = nodes[i]? := renumbering_chain N es nodes hN hes hnd
+
+example : sortNodes #[2, 0, 1, 3] #["a", "b", "c", "d"] = some #["b", "c", "a", "d"] := by decide +kernel
+example : sortNodes #[2, 0, 1, 1] #["a", "b", "c", "d"] = none := by decide +kernel
+
 /-- `SortElements` (the comb sort that stops early) loses and duplicates nothing -/
 theorem sortElements_is_permutation (els : List Cuthill.Elem) : (sortElements els).Perm els := sortElements_perm els
 
